@@ -69,9 +69,8 @@ func RandomHistories(w *WorldJSON, seed int64, n, depth int, routers []string, f
 			}
 			if (focus == "clientauth" || focus == "device") && i%25 == 0 {
 				// scripted table inside a history: every device client polls an approved code of its own with every kind of credential
-				for _, c := range []string{"cx", "cp", "cd", "cn"} {
-					for _, cr := range []M{{"kind": "none", "secret": "none", "key": "none"}, {"kind": "basic", "secret": "right", "key": "none"},
-						{"kind": "post", "secret": "right", "key": "none"}, {"kind": "basic", "secret": "wrong", "key": "none"}} {
+				for _, c := range []string{"cx", "cp", "cd", "cn", "cj"} {
+					for _, cr := range presentations("cw") {
 						out := emit("DeviceAuthorize", M{"caller": c, "cred": g.rightCred(c), "scopes": []string{"openid"}})
 						if dc := S(out, "dc"); dc != "none" && dc != "" {
 							emit("Approve", M{"dc": dc, "user": "u1"})
